@@ -194,14 +194,32 @@ fn probe(id: u32, got: MsgT, kept: &[Kept]) -> Result<Vec<Box<dyn std::any::Any>
 }
 
 fn body(prog: &Vec<Step>) -> Result<(), String> {
+    // a leading `Step::Data, Step::Data, Step::Data, Step::Data` marker is not used; OS-level
+    // rejection is requested by the wrapper below
+    body2(prog, false)
+}
+
+fn body_os_reject(prog: &Vec<Step>) -> Result<(), String> {
+    body2(prog, true)
+}
+
+fn body2(prog: &Vec<Step>, os_reject: bool) -> Result<(), String> {
     let (tx, rx) = ipc::channel::<MsgT>().map_err(|e| e.to_string())?;
+    let rx = if os_reject {
+        // the OS will reject the transmission: the receiving end is gone
+        drop(rx);
+        let (_t, r) = ipc::channel::<MsgT>().map_err(|e| e.to_string())?;
+        r
+    } else {
+        rx
+    };
     let mut b = Built { infos: Vec::new(), next_id: 1 };
     let val = build(prog, 0, &mut b)?;
     let r = tx.send(val);
     let outer_info = b.infos.iter().find(|m| m.id == 0).unwrap();
     obs(format!("outer={}", if r.is_ok() { "ok" } else { "err" }));
-    if r.is_ok() == outer_info.fails {
-        return Err(format!("harness expectation: outer send result {:?} but program fails={}", r.is_ok(), outer_info.fails));
+    if r.is_ok() == (outer_info.fails || os_reject) {
+        return Err(format!("outer send result ok={:?} but program fails={} os_reject={}", r.is_ok(), outer_info.fails, os_reject));
     }
     let mut alive: Vec<Box<dyn std::any::Any>> = Vec::new();
     if r.is_ok() {
@@ -368,6 +386,25 @@ pub fn run(tier: Tier, _part: bool) -> i32 {
             Err(e) => fails.push((c.clone(), e)),
         }
     });
+    // the other failure cause: the OS rejects the transmission (receiver gone), programs without
+    // nested sends
+    let osr: Vec<Vec<Step>> = cs.iter().filter(|p| count_nested(p) == 0 && !p.is_empty()).cloned().collect();
+    let mut n2 = 0u64;
+    let mut fails2 = Vec::new();
+    sweep(&osr, 60.0, &cfg_of, &body_os_reject, &mut |_, c, out| {
+        n2 += 1;
+        match super::describe(out) {
+            Ok(_) => {
+                nontrivial.insert(vec![Step::Nested(c.clone())]);
+            },
+            Err(e) if e.starts_with("MACHINERY") => rep.machinery(e),
+            Err(e) => fails2.push((c.clone(), e)),
+        }
+    });
+    n += n2;
+    for (c, e) in fails2 {
+        rep.fail(&format!("[os-rejected-send] {} :: {:?}", e, c), json!({"os_reject": true, "prog": c}));
+    }
     for (c, e) in fails {
         let has_fail = format!("{:?}", c).contains("Fail");
         let class = if has_fail { "program-with-failing-serialisation" } else { "program-without-failure" };
@@ -379,14 +416,15 @@ pub fn run(tier: Tier, _part: bool) -> i32 {
     rep.set("exhaustive", json!(true));
     rep.sample(serde_json::to_value(&cs[cs.len() / 2]).unwrap());
     rep.sample(serde_json::to_value(&cs[cs.len() - 3]).unwrap());
-    rep.assume("OS-level rejection of a transmission (the other failure cause in the statement) is exercised by C09/C15; here failures are serialisation errors");
+    rep.assume("failures are serialisation errors (all programs) and OS-level rejection because the receiving end is gone (programs without nested sends)");
     rep.finish()
 }
 
 pub fn replay(v: &Value) -> i32 {
-    let Ok(c) = serde_json::from_value::<Vec<Step>>(v.clone()) else { return 2 };
+    let osr = v.get("os_reject").is_some();
+    let Ok(c) = serde_json::from_value::<Vec<Step>>(if osr { v["prog"].clone() } else { v.clone() }) else { return 2 };
     for r in 0..2 {
-        let out = crate::exec::run_one(&cfg_of(&c), 60.0, &|| body(&c));
+        let out = crate::exec::run_one(&cfg_of(&c), 60.0, &|| body2(&c, osr));
         println!("replay round {}: {:?} -> {:?}", r, c, super::describe(&out));
     }
     0
